@@ -244,4 +244,153 @@ theorem C17_queue_bounded (normalMax : Int) (n : Nat) (single : Bool) (parts : L
     have h2 : (tpsOf c parts).length ≤ parts.length := by unfold tpsOf; exact List.length_filterMap_le _ _
     simp only [List.length_append]; omega
 
+/-! ### sizes stay positive -/
+
+variable {σ : Type}
+
+/-- every partition's fetch size is positive (a Fetch request with a size <= 0 can deliver nothing, and a size <= 0 never
+    grows by doubling) -/
+def Pos (c : Consumer) : Prop := ∀ e ∈ c.fetchOffsets, 0 < e.2.maxBytes
+
+theorem assocSet_all {α β} [DecidableEq α] (P : β → Prop) (m : List (α × β)) (k : α) (v : β) (hm : ∀ e ∈ m, P e.2) (hv : P v) :
+    ∀ e ∈ assocSet m k v, P e.2 := by
+  induction m with
+  | nil => intro e he; simp [assocSet] at he; rw [he]; exact hv
+  | cons x xs ih =>
+    obtain ⟨k', v'⟩ := x
+    intro e he
+    simp only [assocSet] at he
+    split at he
+    · rcases List.mem_cons.mp he with rfl | h
+      · exact hv
+      · exact hm e (List.mem_cons_of_mem _ h)
+    · rcases List.mem_cons.mp he with rfl | h
+      · exact hm _ List.mem_cons_self
+      · exact ih (fun e he => hm e (List.mem_cons_of_mem _ he)) e h
+
+theorem assocGet_mem {α β} [DecidableEq α] (m : List (α × β)) (k : α) (v : β) (h : assocGet m k = some v) : (k, v) ∈ m := by
+  unfold assocGet at h
+  cases hf : m.find? (·.1 = k) with
+  | none => simp [hf] at h
+  | some e =>
+    simp [hf] at h
+    have h1 := List.find?_some hf
+    have h2 := List.mem_of_find?_eq_some hf
+    simp at h1
+    obtain ⟨a, b⟩ := e
+    simp at h h1; subst h h1; exact h2
+
+theorem processPartition_pos (nm : Int) (nq : Nat) (single : Bool) (c c' : Consumer) (tr : Nat) (p : FetchPartition) (got : Bool)
+    (hnm : 0 < nm) (hpos : Pos c)
+    (h : processPartition nm nq single c tr p = (.ok c', got)) : Pos c' := by
+  unfold processPartition at h
+  cases hd : p.data with
+  | error code => rw [hd] at h; simp at h
+  | ok v =>
+    obtain ⟨hw, msgs⟩ := v
+    rw [hd] at h
+    simp only [] at h
+    cases hfs : assocGet c.fetchOffsets ⟨tr, p.partition⟩ with
+    | none => rw [hfs] at h; simp at h
+    | some fs =>
+      rw [hfs] at h
+      simp only [] at h
+      have hfpos : 0 < fs.maxBytes := hpos _ (assocGet_mem _ _ _ hfs)
+      cases hl : msgs.getLast? with
+      | some last =>
+        rw [hl] at h
+        simp only [Prod.mk.injEq, Outcome.ok.injEq] at h
+        rw [← h.1]
+        exact assocSet_all (fun (fs : FetchState) => 0 < fs.maxBytes) _ _ _ hpos hnm
+      | none =>
+        rw [hl] at h
+        simp only [] at h
+        by_cases h1 : fs.offset < hw
+        · simp only [h1, if_true] at h
+          by_cases h2 : fs.maxBytes < c.retryLimit
+          · simp only [h2, if_true, Prod.mk.injEq, Outcome.ok.injEq] at h
+            rw [← h.1]
+            have hnew : 0 < (if fs.maxBytes + fs.maxBytes > c.retryLimit then c.retryLimit else fs.maxBytes + fs.maxBytes) := by
+              split <;> omega
+            split <;> exact assocSet_all (fun (fs : FetchState) => 0 < fs.maxBytes) _ _ _ hpos hnew
+          · simp only [h2, if_false] at h
+            by_cases h3 : nq = 1
+            · simp [h3] at h
+            · simp only [h3, if_false, Prod.mk.injEq, Outcome.ok.injEq] at h
+              rw [← h.1]; split <;> exact hpos
+        · simp only [h1, if_false, Prod.mk.injEq, Outcome.ok.injEq] at h
+          rw [← h.1]; exact hpos
+
+theorem processAll_pos (nm : Int) (nq : Nat) (single : Bool) (hnm : 0 < nm) :
+    ∀ (parts : List (Bytes × FetchPartition)) (c c' : Consumer) (ne ne' : Bool), Pos c →
+      processAll nm nq single parts c ne = (.ok c', ne') → Pos c' := by
+  intro parts
+  induction parts with
+  | nil => intro c c' ne ne' hp h; simp only [processAll, Prod.mk.injEq, Outcome.ok.injEq] at h; rw [← h.1]; exact hp
+  | cons x r ih =>
+    intro c c' ne ne' hp h
+    obtain ⟨t, p⟩ := x
+    simp only [processAll] at h
+    cases htr : topicRef c.assignments t with
+    | none => rw [htr] at h; simp at h
+    | some tr =>
+      rw [htr] at h
+      simp only [] at h
+      rcases hpp : processPartition nm nq single c tr p with ⟨o, got⟩
+      rw [hpp] at h
+      cases o with
+      | ok c1 => exact ih _ _ _ _ (processPartition_pos nm nq single c c1 tr p got hnm hp hpp) h
+      | err e => simp at h
+      | panic s => simp at h
+      | diverge => simp at h
+
+theorem processAllReached_pos (nm : Int) (nq : Nat) (single : Bool) (hnm : 0 < nm) :
+    ∀ (parts : List (Bytes × FetchPartition)) (c : Consumer), Pos c → Pos (processAllReached nm nq single parts c) := by
+  intro parts
+  induction parts with
+  | nil => intro c hp; exact hp
+  | cons x r ih =>
+    intro c hp
+    obtain ⟨t, p⟩ := x
+    simp only [processAllReached]
+    cases htr : topicRef c.assignments t with
+    | none => exact hp
+    | some tr =>
+      simp only []
+      rcases hpp : processPartition nm nq single c tr p with ⟨o, got⟩
+      cases o with
+      | ok c1 => exact ih c1 (processPartition_pos nm nq single c c1 tr p got hnm hp hpp)
+      | err e => exact hp
+      | panic s => exact hp
+      | diverge => exact hp
+
+/-- **sizes stay positive**: with a positive configured fetch size, whatever the brokers answer, the book-keeping of a poll
+    leaves every partition with a positive fetch size - so doubling always grows it (`C17_strict`) and the retry ladder of
+    `C17_deliver` is the one that runs -/
+theorem C17_sizes_stay_positive (nq : Nat) (resps : List FetchResponse) (w : WC σ)
+    (hcfg : 0 < w.cons.client.cfg.fetchMaxBytes) (hp : Pos w.cons) : Pos (processResponses nq resps w).1.cons := by
+  unfold processResponses
+  simp only []
+  split
+  · exact hp
+  · split
+    · rename_i c' ne h; exact processAll_pos _ _ _ hcfg _ _ _ _ _ hp h
+    · exact processAllReached_pos _ _ _ hcfg _ _ hp
+    · exact hp
+    · exact hp
+
+/-- a seek moves the offset and nothing else: the size stays what it was -/
+theorem C17_seek_keeps_size (t : Bytes) (p off : Int) (w : WC σ) (hp : Pos w.cons) : Pos (seek t p off w).1.cons := by
+  unfold seek
+  rw [M.bind_def]
+  simp only [getCons]
+  cases htr : topicRef w.cons.assignments t with
+  | none => exact hp
+  | some tr =>
+    simp only []
+    cases hfs : assocGet w.cons.fetchOffsets ⟨tr, p⟩ with
+    | none => exact hp
+    | some fs =>
+      simp only [modCons, M.modify]
+      exact assocSet_all (fun (fs : FetchState) => 0 < fs.maxBytes) _ _ _ hp (hp _ (assocGet_mem _ _ _ hfs))
 end Kafka.Props.C17
